@@ -1,5 +1,5 @@
 use crate::ast::Span;
-use ariadne::{Config, Label, Report, ReportKind, Source};
+use ariadne::{Config, IndexType, Label, Report, ReportKind, Source};
 use std::{fmt, rc::Rc};
 
 // Only import Color when not building for WASM (since we don't use colors there)
@@ -67,10 +67,11 @@ impl fmt::Display for RuntimeError {
             // Disable colors when compiling for WASM to avoid ANSI escape sequences
             // in browser/Node.js environments where they won't be interpreted
             #[cfg(target_arch = "wasm32")]
-            let config = Config::default().with_color(false);
+            let config = Config::default().with_color(false).with_index_type(IndexType::Byte);
 
+            // Spans are byte offsets into the source; ariadne counts characters unless told otherwise
             #[cfg(not(target_arch = "wasm32"))]
-            let config = Config::default();
+            let config = Config::default().with_index_type(IndexType::Byte);
 
             // Build label - don't set color in WASM builds as it may override config
             #[cfg(target_arch = "wasm32")]
